@@ -118,6 +118,17 @@ class DecideTranslator(pp.ProtoTranslator):
         if target.kind != "range":
             self.plain_inputs = _SigOrdered([a.arg for a in fn.args.args])
 
+    # the assigned attributes (= the components of `out` of a `method` target): those the configuration declares (`Target.attrs`) first, in
+    # the DECLARED order, then the others in order of first assignment — a harmless reordering of assignments does not permute `out`
+    @property
+    def out_attrs(self):
+        return self._out_attrs
+
+    @out_attrs.setter
+    def out_attrs(self, v):
+        declared = [a for a in self.target.attrs if a in v]
+        self._out_attrs = declared + [a for a in v if a not in declared]
+
     # ------------------------------------------------------------------ expressions
     def _str_in(self, e: ast.expr):
         if self.pcfg.str_in and isinstance(e, ast.Compare) and len(e.ops) == 1 and isinstance(e.ops[0], ast.In) \
